@@ -24,14 +24,26 @@ func TestVerifC15MultiRoute(t *testing.T) {
 	mlog.SetLvl(zerolog.Disabled)
 	rep := report.New("C15 refusals on a multi-route UDP listener")
 	defer rep.Write()
-	rep.Rule = "real router started from configuration: UDP listener on the wildcard address with multi_routes {on, off}, client limiter rate 1/s burst 3, a reject rule (no upstream); clients with connected UDP sockets towards " +
+	rep.Rule = "real router started from configuration: UDP listener on the IPv4 wildcard address with multi_routes {on, off} and on the dual-stack wildcard [::] with multi_routes on (IPv4 clients, IPv4-mapped there); query names of several lengths, client limiter rate 1/s burst 3, a reject rule (no upstream); clients with connected UDP sockets towards " +
 		"127.0.0.1, 127.0.0.2 and 127.0.0.77 send 8 queries each, 30 ms apart; oracle (no timing): every query gets exactly one response on the connected socket within 3 s - NXDOMAIN (admitted) or REFUSED (over budget) -, at least one of each per client"
 	if sh, _ := report.Shard(); sh != 0 {
 		rep.Eval("idle-shard")
 		rep.Eval("idle-shard2")
 		return
 	}
-	for _, multi := range []bool{true, false} {
+	type mode struct {
+		multi  bool
+		listen string
+	}
+	modes := []mode{{true, "0.0.0.0"}, {false, "0.0.0.0"}}
+	if pc6, err := net.ListenPacket("udp", "[::]:0"); err == nil {
+		pc6.Close()
+		modes = append(modes, mode{true, "[::]"}) // dual-stack wildcard: IPv4 clients arrive with IPv4-mapped addresses
+	} else {
+		rep.Note("no IPv6 wildcard socket here: dual-stack mode skipped")
+	}
+	for _, md := range modes {
+		multi := md.multi
 		var r *router
 		var port int
 		var err error
@@ -43,7 +55,7 @@ func TestVerifC15MultiRoute(t *testing.T) {
 			port = pc.LocalAddr().(*net.UDPAddr).Port
 			pc.Close()
 			cfg := &Config{
-				Servers: []ServerConfig{{Protocol: "udp", Listen: fmt.Sprintf("0.0.0.0:%d", port), Udp: UdpConfig{MultiRoutes: multi}}},
+				Servers: []ServerConfig{{Protocol: "udp", Listen: fmt.Sprintf("%s:%d", md.listen, port), Udp: UdpConfig{MultiRoutes: multi}}},
 				Rules:   []RuleConfig{{Reject: 3}},
 				Limiter: LimiterConfig{Client: ClientLimiterConfig{Limit: 1, Burst: 3}},
 			}
@@ -61,7 +73,7 @@ func TestVerifC15MultiRoute(t *testing.T) {
 				// without multi_routes the reply source is the kernel's choice; only the default address is promised to work
 				continue
 			}
-			desc := fmt.Sprintf("multi_routes=%v client -> %s:%d", multi, dst, port)
+			desc := fmt.Sprintf("listen %s multi_routes=%v client -> %s:%d", md.listen, multi, dst, port)
 			rep.Eval(desc)
 			c, err := net.Dial("udp", fmt.Sprintf("%s:%d", dst, port))
 			if err != nil {
@@ -70,7 +82,10 @@ func TestVerifC15MultiRoute(t *testing.T) {
 			}
 			const n = 8
 			for i := 0; i < n; i++ {
-				c.Write(refdns.Query(uint16(0x1500+i), refdns.N("mr", "example", "test"), 1, 1).Encode(false))
+				// (names of different lengths, also a very short one: response and control-message buffers of several size classes get
+				// recycled between the replies)
+				name := [][]string{{"mr", "example", "test"}, {"a", "io"}, {"a"}, {"mr", "example", "test"}}[i%4]
+				c.Write(refdns.Query(uint16(0x1500+i), refdns.N(name...), 1, 1).Encode(false))
 				time.Sleep(30 * time.Millisecond)
 			}
 			got := map[uint16]int{}
